@@ -129,11 +129,14 @@ def check(rep, an, tier):
                     F.qty(rep, res, entry, subs=("mismatch", "centre", "frame-ratio"))
                     R.rule_type_errors(rep, res, "SHAPE", "R-SHAPE", entry)
                     R.rule_purity(rep, res, entry)
+                    R.rule_index_space(rep, res, entry)
                     R.rule_effect_free(rep, res, entry, reg=_reg(an))
                     R.rule_dtype(rep, res, entry)
                     R.rule_block_cover(rep, res, entry)
                     CC.membership_frames(rep, res, entry)
                     CC.corner_subset(rep, res, entry)
+                    if meth == "hull_dist_scaling":
+                        CC.vertex_set(rep, res, entry)
                     if meth == "hull_dist_scaling":
                         CC.corner_map(rep, res, entry)
                     if Fax == "#2":
